@@ -128,6 +128,21 @@ def _harvest():
         for k, pl in c.layout_plan.entity_placements.items():
             if pl.position is not None:
                 places[k] = [pl.entity_type, float(pl.position[0]), float(pl.position[1]), pl.role]
+        # the gate pair of a memory cell is wired by explicit connections outside the edge list
+        # (MemoryBuilder._setup_standard_write): write gate -> hold gate and the hold gate's self loop,
+        # both red; every reader of the hold gate therefore also sees the write gate
+        for k, pl in places.items():
+            if pl[3] == "memory_hold_gate" and k.endswith("_hold_gate"):
+                wg = k[: -len("_hold_gate")] + "_write_gate"
+                if wg not in places:
+                    continue
+                sigs = {e[2] for e in edges if e[0] == k} | {e[2] for e in edges if e[1] == wg and e[2] != "signal-W"}
+                for sg in sorted(sigs):
+                    edges.append([wg, k, sg, "red", None])
+                    edges.append([k, k, sg, "red", None])
+                    for e in list(edges):
+                        if e[0] == k and e[1] != k and e[2] == sg:
+                            edges.append([wg, e[1], sg, e[3], None])
         return {"edges": edges, "places": places}
     except Exception as e:  # noqa: BLE001
         return {"error": str(e)}
